@@ -33,6 +33,16 @@ def obligations(tier, ctx):
             obs.append(Ob(name=f"wrapper_body{body}_tg{tgm}", params=[("on_term", "bool"), ("on_kill", "bool"), ("outer", "bool")], pre=[],
                           call=f"H.wrapper(0, {body}, on_term, on_kill, {tgm}, outer)", backend="P", timeout=120,
                           family="stdio_client context manager: body leaves normally / by exception / by cancellation"))
+    from symcheck import consts
+    ENV_SIZES = (4096, 8192, 65536, 131072)
+    lim = 70000 if tier == "quick" else 140000
+    nsz = len(consts.size_cases(lim, extra=ENV_SIZES))
+    for kind in ((0, 2) if tier == "quick" else (0, 1, 2, 3, 8, 9)):
+        for pat in ((0,) if tier == "quick" else (0, 4)):
+            obs.append(Ob(name=f"blocked_writer_{kind}_p{pat}", params=[("k", "int")], pre=[f"0 <= k < {nsz}"], call=f"H.blocked_writer({kind}, k, {pat}, {lim})", backend="P", timeout=600,
+                          family="a task waiting for the child's pipe stays cancellable (message of c-1, c, c+1 characters; c: integer constants of the source, PIPE_BUF, pipe and buffer sizes)"))
+    obs.append(Ob(name="blocked_reader", params=[("x", "int")], pre=["x == 0"], call="H.blocked_reader(x)", backend="P", timeout=60,
+                  family="a task waiting for the child's pipe stays cancellable (message of c-1, c, c+1 characters; c: integer constants of the source, PIPE_BUF, pipe and buffer sizes)"))
     obs.append(Ob(name="cannot_start", params=[("w", "int")], pre=["0 <= w <= 2"], call="H.cannot_start(w)", backend="P", timeout=60, family="entering"))
     obs.append(Ob(name="empty_command", params=[("x", "int")], pre=["x == 0"], call="H.empty_command()", backend="P", timeout=30, family="entering"))
     return obs
